@@ -15,8 +15,9 @@
 (*                     written as sequences (x[i] and x[(i,)] coincide).   *)
 (*   ACEq(e1, e2)      NF(e1) = NF(e2)                                      *)
 (*   NFU / ACUEq       the same after the identities x+0 = x, x*1 = x,     *)
-(*                     x*0 = 0: an empty group of a sum is 0, of a product *)
-(*                     1, a group of one operand is the operand.  Only     *)
+(*                     x*0 = 0, 0/x = 0: an empty group of a sum is 0, of  *)
+(*                     a product 1, a group of one operand is the          *)
+(*                     operand.  Only                                      *)
 (*                     used to SEPARATE "differs by an arithmetic          *)
 (*                     simplification" from "wrong".                       *)
 (*   Sound(p,t,C,r)    the statement's three clauses for one record        *)
@@ -100,7 +101,13 @@ NFg(e, unit, AK) ==
       [] e.t = "Sub" ->       \* index always as a sequence ("index tupling")
             [t |-> "Sub", a |-> NFg(e.a, unit, AK),
              c |-> IF e.b.t = "Tup" THEN nfs(e.b.c) ELSE << NFg(e.b, unit, AK) >>]
-      [] e.t \in BinKinds \ {"Sub"} -> [t |-> e.t, a |-> NFg(e.a, unit, AK), b |-> NFg(e.b, unit, AK)]
+      [] e.t \in BinKinds \ {"Sub"} ->
+            \* unit: 0/e = 0 (pymbolic's is_zero calls a quotient with a zero numerator zero,
+            \* so flattened_sum drops it and flattened_product is absorbed by it)
+            LET na == NFg(e.a, unit, AK) IN
+            IF unit /\ e.t \in {"Quotient", "FloorDiv", "Remainder"} /\ IsConstNF(na, 0)
+            THEN ConstNF(0, 1)
+            ELSE [t |-> e.t, a |-> na, b |-> NFg(e.b, unit, AK)]
       [] e.t \in UnKinds -> [t |-> e.t, a |-> NFg(e.a, unit, AK)]
       [] e.t = "Cmp" -> [t |-> "Cmp", a |-> NFg(e.a, unit, AK), op |-> e.op, b |-> NFg(e.b, unit, AK)]
       [] e.t = "If"  -> [t |-> "If", i |-> NFg(e.i, unit, AK), th |-> NFg(e.th, unit, AK),
